@@ -20,7 +20,7 @@ clean_rc=0; PYTHONPATH="$wt/src" timeout 300 /venv/bin/python "$out/demo.py" > "
 if ! git -C "$wt" apply "$out/patch.diff" 2>/dev/null && ! (cd "$wt" && patch -s -p1 -F3 --no-backup-if-mismatch < "$out/patch.diff"); then echo "PATCH DOES NOT APPLY"; git -C /repo worktree remove --force "$wt"; exit 3; fi
 git -C "$wt" diff -- src > "$out/patch.diff"
 pat_rc=0; PYTHONPATH="$wt/src" timeout 300 /venv/bin/python "$out/demo.py" > "$out/.demo_patched.txt" 2>&1 || pat_rc=$?
-suite="$(/tmp/wt/tools/run_pinned.sh "$wt" | tail -3 | tr '\n' ' ')"
+suite="$("$here/tools/run_pinned.sh" "$wt" | tail -3 | tr '\n' ' ')"
 declare -A res
 for c in "${checks[@]}"; do
   o="$(VERIF_REPO_SRC="$wt/src" "$here/check" "$c" --tier quick --no-evidence 2>&1)"; rc=$?
